@@ -10,6 +10,7 @@ aligned step by step.  Every result is compared with
   (b) a STATELESS recomputation on fresh objects parsed from the root's serialised key,
   (c) for the watch-only wallet: the full wallet's data below the exported node,
   (d) the network tag of every emitted string."""
+import os
 import threading
 
 from . import refprims as R
@@ -169,8 +170,37 @@ def norm_path(p):
     return tuple(real_index(x) for x in p)
 
 
+def raised_in_library(ex):
+    """did the exception originate inside the code under test (innermost frames in btc_hd_wallet or below it),
+    as opposed to the harness itself?"""
+    import traceback
+    frames = traceback.extract_tb(ex.__traceback__)
+    files = [f.filename for f in frames]
+    lib = [i for i, fn in enumerate(files) if "btc_hd_wallet" in fn]
+    if not lib:
+        return False
+    # nothing of the harness after the last library frame
+    return not any(os.sep + "harness" + os.sep in fn for fn in files[lib[-1]:])
+
+
 def run_behaviour(steps, seed_hex="5e" * 64, world=None, private_gens=None, tag=""):
-    """Step the real objects through one parsed behaviour.  Raises Mismatch."""
+    """Step the real objects through one parsed behaviour.  Raises Mismatch.  An exception escaping from the
+    library during a request the model answers is a mismatch as well (every request that may legitimately
+    fail is handled where it is made)."""
+    try:
+        return _run_behaviour(steps, seed_hex, world, private_gens, tag)
+    except Mismatch:
+        raise
+    except Exception as ex:
+        if raised_in_library(ex):
+            import traceback
+            where = traceback.extract_tb(ex.__traceback__)[-1]
+            raise Mismatch("purity", "a request on the shared objects raised %r inside the library (%s:%d) where the model answers"
+                           % (ex, os.path.basename(where.filename), where.lineno))
+        raise
+
+
+def _run_behaviour(steps, seed_hex="5e" * 64, world=None, private_gens=None, tag=""):
     from btc_hd_wallet import PaperWallet
     from btc_hd_wallet.wallet_utils import Version, Key
     init = steps[0]
